@@ -31,6 +31,14 @@ func (o oneByteReader) Read(p []byte) (int, error) {
 // so that an unbounded allocation or a hang cannot take the harness down
 func (e *emitter) runIsolated(op string, args ...string) string {
 	cmd := exec.Command(os.Args[0], append([]string{"one", op}, args...)...)
+	total := 0
+	for _, a := range args {
+		total += len(a)
+	}
+	if total > 100000 { // a single argument is limited to 128 KiB by the kernel
+		cmd = exec.Command(os.Args[0], "one", op, "@stdin")
+		cmd.Stdin = strings.NewReader(strings.Join(args, " "))
+	}
 	cmd.Env = append(os.Environ(), "VERIF_AS_LIMIT=6442450944", "GOMEMLIMIT=2GiB")
 	var out bytes.Buffer
 	cmd.Stdout = &out
@@ -353,6 +361,31 @@ func genC09(e *emitter, tier string, seed uint64) {
 			e.runIsolated("C01.txs", hex.EncodeToString(b5))
 			e.runIsolated("C09.input", "1", hex.EncodeToString(b6[11:]))
 			e.runIsolated("C09.output", hex.EncodeToString(o))
+		}
+	}
+	// (2a) a script length with the top bit set followed by MORE than one read chunk of real data: the chunked reader gets
+	//      past its first chunk before it runs out (a buffer re-grown from the claimed length must not trust it)
+	for _, c := range []uint64{1 << 63, 1<<63 + 1, 1<<64 - 1, 1 << 62, 1 << 32} {
+		for _, follow := range []int{65536, 65537, 140000} {
+			tail := r.bytes(follow)
+			b := append([]byte{1, 0, 0, 0, 1}, r.bytes(36)...)
+			b = append(append(b, nonMinimalVarint(c, 9)...), tail...)
+			o := append(le64b(5), append(nonMinimalVarint(c, 9), tail...)...)
+			b2 := append(append([]byte{1, 0, 0, 0, 0, 1}, o...), 0, 0, 0, 0)
+			b6 := append([]byte{1, 0, 0, 0, 0, 0, 0, 0, 0, 0xEF, 1}, r.bytes(36)...)
+			b6 = append(b6, 0, 0xff, 0xff, 0xff, 0xff)
+			b6 = append(b6, le64b(7)...)
+			b6 = append(append(b6, nonMinimalVarint(c, 9)...), tail...)
+			for _, x := range []struct {
+				entry string
+				b     []byte
+			}{{"tx", b}, {"tx", b2}, {"tx", b6}, {"reader", b}, {"output", o}} {
+				if quick && follow == 140000 && x.entry != "tx" {
+					continue
+				}
+				e.runIsolated("C09.alloc", strconv.Itoa(len(x.b)), x.entry, hex.EncodeToString(x.b))
+				e.note("crafted-long-tail." + x.entry)
+			}
 		}
 	}
 	// (2b) counts whose product with a plausible per-element size wraps modulo 2^64 to something small: a bounds test of
